@@ -60,3 +60,70 @@ def document(rng, size=12):
     if r < 0.8:
         return "".join(nested(rng, 4) for _ in range(rng.randint(1, 3)))
     return soup(rng, rng.randint(1, size // 2)) + nested(rng, 3) + soup(rng, rng.randint(0, 4))
+
+
+# ---- phase-directed inputs: a prefix that leaves the tree constructor in a given insertion mode ----
+PHASE_PREFIXES = {
+    "initial": [""],
+    "beforeHtml": ["<!DOCTYPE html>"],
+    "beforeHead": ["<html>"],
+    "inHead": ["<head>", "<head><meta>"],
+    "inHeadNoscript": ["<head><noscript>"],
+    "afterHead": ["<head></head>", "<head></head> "],
+    "inBody": ["<body>", "<p>", "<b><p>", "<div><b class=a><b class=b>", "<ul><li>", "<dl><dt>", "<button>", "<a href=1>", "<h1>",
+               "<form>", "<ruby><rb>", "<pre>", "<applet><b>", "<nobr>", "<select><option>x</select><option>"],
+    "text": ["<title>", "<textarea>", "<style>", "<script>", "<body><xmp>"],
+    "inTable": ["<table>", "<table> ", "<b><table>", "<p><table>", "<table><tr></tr></tbody>"],
+    "inCaption": ["<table><caption>", "<table><caption><b>"],
+    "inColumnGroup": ["<table><colgroup>", "<table><col>"],
+    "inTableBody": ["<table><tbody>", "<table><thead>", "<table><tbody><tr></tr>"],
+    "inRow": ["<table><tr>", "<table><tbody><tr><td>a</td>", "<table><thead><tr><th>h</th>"],
+    "inCell": ["<table><tr><td>", "<table><tr><th><b>", "<table><tr><td><p>"],
+    "inSelect": ["<select>", "<select><option>", "<select><optgroup><option>"],
+    "inSelectInTable": ["<table><tr><td><select>", "<table><select>", "<table><caption><select><option>"],
+    "inForeignContent": ["<svg>", "<math>", "<svg><g>", "<math><mi>", "<svg><foreignObject>", "<svg><desc>", "<svg><title>",
+                         "<math><annotation-xml encoding=text/html>", "<math><annotation-xml>", "<table><svg>", "<select><svg>"],
+    "afterBody": ["<body></body>", "<p></body>"],
+    "inFrameset": ["<frameset>", "<frameset><frameset>"],
+    "afterFrameset": ["<frameset></frameset>"],
+    "afterAfterBody": ["<body></body></html>", "</html>"],
+    "afterAfterFrameset": ["<frameset></frameset></html>"],
+}
+FOLLOW = ["", "x", " ", "<td>b", "</table>", "<p>y", "</b>z", "<!--c-->"]
+
+
+def phase_directed(dispatch_keys, extra=("div", "span", "b", "a", "p", "li", "td", "tr", "table", "svg", "math", "option", "input")):
+    """every (prefix, start/end tag) pair, each with two different continuations"""
+    out = []
+    i = 0
+    for phase, prefixes in PHASE_PREFIXES.items():
+        names = sorted(set(dispatch_keys.get(phase, ())) | set(extra))
+        for pre in prefixes:
+            for n in names:
+                for kind in ("<%s>", "</%s>"):
+                    if "able" in phase or phase in ("inRow", "inCell", "inCaption", "inColumnGroup"):
+                        follows = ["", "x", "<td>b", "</table>y", "<tr><td>c"]
+                    else:
+                        follows = [FOLLOW[(i + k * 3) % len(FOLLOW)] for k in range(2)]
+                    for f in follows:
+                        out.append(pre + kind % n + f)
+                    i += 1
+    return out
+
+
+def dispatch_keys():
+    from html5lib import html5parser
+    d = {}
+    for key, cls in html5parser._phases.items():
+        ks = set()
+        for nm in ("startTagHandler", "endTagHandler"):
+            if nm in cls.__dict__:
+                ks |= set(cls.__dict__[nm].keys())
+        d[key] = ks
+    # foreign content consults breakoutElements
+    d["inForeignContent"] = set(html5parser.InForeignContentPhase.breakoutElements) | {"font", "svg", "math", "mglyph", "malignmark",
+                                                                                      "foreignobject", "desc", "title", "mi", "mo",
+                                                                                      "annotation-xml", "script", "style"}
+    allk = set().union(*d.values())
+    d["inBody"] |= allk
+    return d
